@@ -207,7 +207,7 @@ def stepPath (s : DState) (op _obs : String) : DState × String :=
   match LA.words op with
   | ["clean", nd, na, p] =>
     match LA.parseHex p with
-    | some p => (s, showRes (cleanup { nodotdot := nd == "1", noabs := na == "1" } p))
+    | some p => (s, showRes (cleanupLiteral { nodotdot := nd == "1", noabs := na == "1" } p))
     | none => (s, "bad-op")
   | ["strip", p] =>
     match LA.parseHex p with
